@@ -169,7 +169,7 @@ Section ReaderSize.
       eapply (wsz_bind (fun _ : unit => True)); [apply wsz_warn_if|]. intros _ _.
       destruct (num =? i32_max); [exact I|].
       eapply wsz_weaken; [|apply IH, E1']. intros [d' n'] H. cbn [fst] in *. unfold dheld in *. cbn [d_buf d_upd d_del] in H.
-      rewrite app_length in H. match type of H with context [length (ains ?a ?b ?c)] => pose proof (ains_length_le a b c) end. lia.
+      rewrite app_length in H. match type of H with context [@length ?T (@ains ?V ?a ?b ?c)] => pose proof (@ains_length_le V a b c) end. unfold range in *. lia.
   Qed.
 
   Theorem read_delta_size sz p : okst p ->
